@@ -1,4 +1,5 @@
 #!/bin/bash
+VROOT="$(cd "$(dirname "${BASH_SOURCE[0]}")/.." && pwd)"
 # tools/seedcheck.sh <dir with patch.diff [+ *_test.go demo + meta.json]> <Cxx> [more Cxx...]
 # Applies a seeded change to a scratch worktree of /repo (outside /repo and /verif), confirms
 # it builds and the pinned suite passes there, confirms the demonstration fails with it and
@@ -12,7 +13,7 @@ PROPS="$@"
 W="/tmp/scratch/seed-$$"
 mkdir -p /tmp/scratch
 git -C /repo worktree add --detach "$W" HEAD >/dev/null 2>&1 || { echo "cannot create worktree"; exit 2; }
-cleanup() { git -C /repo worktree remove --force "$W" >/dev/null 2>&1; rm -rf "$W"; rm -f /verif/.build/fitsim-$(echo "$W" | md5sum | cut -c1-8) /verif/.build/fitsim-race-$(echo "$W" | md5sum | cut -c1-8) /verif/.build/go-$(echo "$W" | md5sum | cut -c1-8).*; }
+cleanup() { git -C /repo worktree remove --force "$W" >/dev/null 2>&1; rm -rf "$W"; rm -f "$VROOT"/.build/fitsim-$(echo "$W" | md5sum | cut -c1-8) "$VROOT"/.build/fitsim-race-$(echo "$W" | md5sum | cut -c1-8) "$VROOT"/.build/go-$(echo "$W" | md5sum | cut -c1-8).*; }
 trap cleanup EXIT
 cd "$W" || exit 2
 DEMO=$(ls "$D"/*_test.go 2>/dev/null | head -1)
@@ -32,14 +33,14 @@ if [ -n "$DEMO" ]; then
 fi
 rc=0
 for P in $PROPS; do
-  out=$(FITSIM_REPO="$W" /verif/check "$P" quick 2>&1); code=$?
+  out=$(FITSIM_REPO="$W" "$VROOT"/check "$P" quick 2>&1); code=$?
   nv=$(echo "$out" | grep -c '^VIOLATION')
   echo "check $P quick: exit $code, $nv VIOLATION lines"
   echo "$out" | grep '^violation class' | head -3 | cut -c1-300
   if [ $code -eq 1 ]; then
     # replay the first replay file against the same scratch tree
     rp=$(echo "$out" | grep '^VIOLATION' | head -1 | sed 's/.*replay=//')
-    rout=$(FITSIM_REPO="$W" /verif/check replay "$rp" 2>&1 | tail -1)
+    rout=$(FITSIM_REPO="$W" "$VROOT"/check replay "$rp" 2>&1 | tail -1)
     echo "  replay of $(basename "$rp"): $rout" | sed "s#$W#<scratch>#g"
   else
     rc=1
